@@ -459,11 +459,11 @@ def explore_config(task):
     roots = task[6] if len(task) > 6 else None
     queries = []
     npaths = 0
-    K, Q = split_kq(K)
-    tag = "run/%s/K%d%s%s" % (path.replace(".ini", ""), K, ("q%d" % Q) if Q > 1 else "",
-                              ("/s" + "".join(str(int(c)) for _, c in start)) if start else "")
-    info = {"config": path, "K": [K, Q], "replay": "run"}
-    K = (K, Q)
+    K = split_kq(K)
+    tag = "run/%s/K%d%s%s%s" % (path.replace(".ini", ""), K[0], ("q%d" % K[1]) if K[1] > 1 else "",
+                                ("-" + K[2]) if len(K) > 2 else "",
+                                ("/s" + "".join(str(int(c)) for _, c in start)) if start else "")
+    info = {"config": path, "K": list(K), "replay": "run"}
     os.makedirs(scratch, exist_ok=True)
     stats = {"commits": 0, "handlers": set()}
     run = make_config_run(path, K, scratch, want_props, roots, stats)
@@ -474,13 +474,15 @@ def split_kq(K):
     """K events per run; the first Q of them restricted to handlers with their own clock (start of run, sampling,
     end of chain, end of run, mode switch, dumping) -- the `quiet prefix' slices of longer histories."""
     if isinstance(K, (tuple, list)):
-        return int(K[0]), int(K[1])
+        return (int(K[0]), int(K[1])) + ((str(K[2]),) if len(K) > 2 and K[2] else ())
     return int(K), 1
 
 
 def make_config_run(path, K, scratch, want_props, roots, stats):
     os.makedirs(scratch, exist_ok=True)
-    K, Q = split_kq(K)
+    spec = split_kq(K)
+    K, Q = spec[0], spec[1]
+    focus = spec[2] if len(spec) > 2 else None
 
     def run(ex):
         cwd = os.getcwd()
@@ -518,7 +520,7 @@ def make_config_run(path, K, scratch, want_props, roots, stats):
             _, undo = jf.patch_math_random(later, ex, rnd=rnd, math_shim=RunMathShim())
             undos.append(undo)
             undos.append(silence_warnings())
-            monitor = Monitor(ex, mediator, K, want_props, stats, Q)
+            monitor = Monitor(ex, mediator, K, want_props, stats, Q, focus)
             monitor.install()
             try:
                 mediator.run()
@@ -585,11 +587,12 @@ def _explore(run, task, tag, info, stats, start, frontier_depth):
 
 # ------------------------------------------------------------------------------------------------ monitors
 class Monitor(object):
-    def __init__(self, ex, mediator, K, want_props, stats, Q=1):
+    def __init__(self, ex, mediator, K, want_props, stats, Q=1, focus=None):
         self.ex = ex
         self.m = mediator
         self.K = K
         self.Q = Q
+        self.focus = focus      # tag of the tagger whose handlers alone may commit event number Q (typed slice)
         self.want = want_props
         self.stats = stats
         self.commits = 0
@@ -656,6 +659,14 @@ class Monitor(object):
                     mon.ex.assume(z3.BoolVal(False))
                     raise symx.PathAbort()
                 i = pool[mon.ex.choose(len(pool))]
+            elif mon.focus is not None and mon.commits == mon.Q and finite:
+                # typed slice: the first free commit is an event of the given tagger (the union of these slices over
+                # all taggers of the configuration is the unrestricted run)
+                pool = [j for j, o in enumerate(cands) if mon.tag_of(o.event_handler) == mon.focus]
+                if not pool:
+                    mon.ex.assume(z3.BoolVal(False))
+                    raise symx.PathAbort()
+                i = pool[mon.ex.choose(len(pool))]
             else:
                 i = mon.ex.choose(len(cands))
             e = cands[i]
@@ -700,6 +711,12 @@ class Monitor(object):
             mon.on_write(name, args)
         io.write = write
         io.post_run = lambda: None
+
+    def tag_of(self, h):
+        for tagger in self.m._activator._taggers:
+            if any(h is x for x in tagger.get_event_handlers()):
+                return tagger.tag
+        return None
 
     def is_quiet(self, h):
         from jellyfysh.activator.tagger.no_in_state_tagger import NoInStateTagger
